@@ -200,6 +200,20 @@ func TestVerifValueSetRejections(t *testing.T) {
 			t.Errorf("FAILING-INPUT signature %v mixing a marker struct with other parameters was accepted", in)
 		}
 	}
+	// nil is a non-function value too: it must be rejected with an error, not a panic
+	func() {
+		defer func() {
+			if r := recover(); r != nil {
+				t.Errorf("FAILING-INPUT NewFunc(nil) panicked: %v", r)
+			}
+		}()
+		if _, err := NewFunc(nil); err == nil {
+			t.Errorf("FAILING-INPUT NewFunc(nil) accepted")
+		}
+		if r := MustFunc(NewFunc(func() {})).Call(Converter(nil)); r.Err() == nil {
+			t.Errorf("FAILING-INPUT Converter(nil) accepted")
+		}
+	}()
 	// non-function values
 	for _, v := range []interface{}{42, "x", struct{}{}, &st} {
 		if _, err := NewFunc(v); err == nil {
